@@ -98,6 +98,8 @@ def c14(tier):
             p["big"] = True
         if i % 80 == 77:
             p["huge"] = True  # 16 runs of the quick tier: more than 256 points in one observable
+        if i % 12 == 9:
+            p.update(many=True, max_pto=1, max_ops=16 if quick else 22)  # four to six live runners
         if not quick and i % 4 == 2:
             p["max_ops"] = 18  # longer histories in the thorough tier
         if jit and not quick:
@@ -110,9 +112,9 @@ def c14(tier):
         return _common_evidence(
             "C14", "exploration", agg, det, tier, seed, wall, t_main, n_new, replays, unprocessed,
             rule="one run = one seeded history: swarm-drawn cards (process × scheme × order × TMC × scale-variation "
-                 "switches × target × grid), 1–3 live runners whose observable lists are permutations/subsets/supersets/"
+                 "switches × target × grid), 1–3 (one run in 12: 4–6) live runners whose observable lists are permutations/subsets/supersets/"
                  "duplications of one another, ≤12 interleaved client ops (new_runner, get_result, sf/element get_result, "
-                 "drop_cache, scribble, evict_global) with explicit fault decisions at seams; every returned result is "
+                 "drop_cache, scribble, evict_global, run_yadism on a permuted/extended card) with explicit fault decisions at seams; every returned result is "
                  "compared bit-for-bit with an isolated single-point fresh-runner reference computed after the history. "
                  "non-trivial = at least one fault fired, or an SF-cache entry was re-used by a later lookup, or a "
                  "returned object was scribbled on; distinct = distinct sha256 of (settings, ops, faults).",
